@@ -10,10 +10,9 @@ namespace Obligations
 
 theorem codec_extraction_complete : Extracted.codecFailures = [] := by decide
 
-/-- the size cache can hold something inline, doubles on growth with one allocation, and `clear()` keeps the storage -/
-theorem codec_cache_geometry :
-    0 < Extracted.cacheInlineCap ∧ Extracted.cacheGrowthFactor = 2 ∧ Extracted.cacheGrowAllocs = 1 ∧
-    Extracted.clearKeepsCapacity = true ∧ Extracted.cacheElemBytes = 4 := by decide
+/-- the cached lengths are `uint32_t` (where the model truncates) — capacity and growth of the vector are C11's subject
+    (`Obligations/CodecAlloc.lean`); the C04 theorems hold for every capacity -/
+theorem codec_cache_elem : Extracted.cacheElemBytes = 4 := by decide
 
 /-- no std/ codec `memcpy`s `pair` elements (side condition `ki.ok` of `wf`) -/
 theorem codec_kinds_ok : Extracted.kindTable.all (fun p => p.2.ok) = true := by decide
